@@ -8,7 +8,10 @@ LEVEL = "proof"
 CONFIGS = [("ALL", "slots.mechanisms = ALL\n"),
            ("CKM_AES_CBC,CKM_AES_ECB,CKM_SHA256_HMAC,CKM_SHA_1,CKM_RSA_PKCS,CKM_SHA256_RSA_PKCS,CKM_ECDSA,CKM_AES_KEY_GEN,CKM_RSA_PKCS_KEY_PAIR_GEN,CKM_EC_KEY_PAIR_GEN,CKM_EC_EDWARDS_KEY_PAIR_GEN,CKM_BOGUS",
             None),
-           ("-CKM_SHA256,CKM_AES_KEY_GEN,CKM_AES_CBC_PAD,CKM_RSA_PKCS_OAEP,CKM_SHA512_HMAC,CKM_EDDSA,CKM_EC_KEY_PAIR_GEN,CKM_DES3_CBC", None)]
+           ("-CKM_SHA256,CKM_AES_KEY_GEN,CKM_AES_CBC_PAD,CKM_RSA_PKCS_OAEP,CKM_SHA512_HMAC,CKM_EDDSA,CKM_EC_KEY_PAIR_GEN,CKM_DES3_CBC", None),
+           # lists as administrators write them: unknown names (another build's mechanism, a typo), an empty entry, a repeated name, a trailing comma
+           ("-CKM_MD5_HMAC,CKM_GOSTR3411,CKM_MD5,,CKM_SHA_1,CKM_AES_ECBB,CKM_AES_ECB,CKM_DES3_KEY_GEN,CKM_SHA_1,CKM_AES_GCM,", None),
+           ("CKM_NOPE,CKM_AES_CBC,,CKM_SHA256,CKM_AES_CBC,CKM_SHA_1,CKM_RSA_PKCS,CKM_AES_KEY_GEN,CKM_RSA_PKCS_KEY_PAIR_GEN,-CKM_MD5", None)]
 RULE = ("T07: the mechanism registry (name -> CK_MECHANISM_TYPE, C_GetMechanismInfo) is dumped by executing prepareSupportedMecahnisms. K07: the COMPLETE matrix "
         "{C_EncryptInit, C_DecryptInit, C_SignInit, C_VerifyInit} x 72 keys (AES, DES2, DES3, generic, SHA256-HMAC, SHA1-HMAC secret keys; RSA, EC P-256, Ed25519 "
         "public and private keys; each with all usage flags false / true and with no / one of two complementary CKA_ALLOWED_MECHANISMS lists) x 48 mechanisms "
